@@ -1,4 +1,5 @@
 import AfkakProofs.Consumer.Trace
+import AfkakProofs.Consumer.A_Gap6
 import AfkakProps.Open.C02
 /-!
 # C02 — the consumer delivers every message once, in offset order, never concurrently
@@ -73,6 +74,31 @@ theorem C02_increasing (cfg : Cfg) (script : List PEntry) (evs : List Ev) (h : e
   accepts_trace _ _ cfg script evs
     (run_inc cfg script evs (fun e he => saneEvent_ok e (List.all_eq_true.1 h e he))).incOk
 
+/-- No gap, no duplicate: against a faithful partition log (every successful fetch reply carries consecutive log
+    entries, the first one at or after the requested offset being the first log entry there; requests at negative
+    offsets are not answered with messages; `auto_offset_reset` is a value the constructor accepts) the stream of
+    messages handed to the processor is the log from the resolved start position, as far as it got: every block starts
+    with the log entry following the last delivered one (or, once after a `start()` / an offset look-up, with the
+    first log entry at the position that yielded) and continues entry by entry.  For every configuration, processor
+    script and event list - restarts, resets, re-entrant calls, failures, parked and late replies included. -/
+theorem C02_no_gap_no_dup : Open.C02.C02_no_gap_no_dup := by
+  intro log cfg script evs hf
+  have h := (A.run_h log cfg script evs hf evs.length).bad
+  rw [List.take_length] at h
+  exact accepts_trace _ _ cfg script evs h
+
+/-! Non-vacuity of the contract: a log with a gap (offsets 3, 4, 7), a wrapper that also delivers an entry below the
+requested offset, a restart inside the log: the event list is faithful and both blocks are delivered. -/
+example :
+    let log : List Msg := [⟨3, 1⟩, ⟨4, 2⟩, ⟨7, 3⟩]
+    let cfg : Cfg := { group := false, autoN := 0, autoS := 0, bufInit := 100, bufMax := none, retryInit := 1, retryMax := 2,
+                       maxAttempts := 0, reset := some Afkak.Consts.offsetEarliest }
+    let evs : List Ev := [.start 0, .fetchOk 0 { msgs := [⟨3, 1⟩, ⟨4, 2⟩], tail := .done }, .retryFire,
+                          .fetchOk 1 { msgs := [⟨4, 2⟩, ⟨7, 3⟩], tail := .done }]
+    Open.C02.FaithfulLog log cfg [] evs ∧
+      (trace cfg [] evs).filterMap (fun | .ob (.proc blk) => some blk | _ => none) = [[⟨3, 1⟩, ⟨4, 2⟩], [⟨7, 3⟩]] := by
+  refine ⟨A.faithfulB_sound _ _ _ _ (by decide +kernel), by decide +kernel⟩
+
 end Afkak.Props.C02
 
 /- OBLIGATIONS
@@ -80,8 +106,8 @@ C02_no_overlap
 C02_single_fetch
 C02_increasing
 C02_payload
+C02_no_gap_no_dup
 -/
 /- OPEN_STATEMENTS
-C02_no_gap_no_dup
 C02_prompt
 -/
